@@ -18,6 +18,7 @@
 //   h5 ticks A k n d:..   h5 interval A k d:x   h5 nointerval A k      h5 dunit A k s:u  h5 deldim A k
 //   h5 units T n s:u..    h5 nopositions M      h5 noposition T        h5 nodata F       h5 nolink F
 //   h5 notype E
+//   entities ro|rw -> every valid::validate(entity) free function on every entity (format at do_entities)
 //   validate      ->  OK <n> <E|W>:<ordinal|unknown|?id>:<s:hex message> ...   (sorted)
 //                     the file is closed, validated first in a ReadOnly session (its first observation ever), then
 //                     in a ReadWrite session; `OK MODE ro=[..] rw=[..]` when the two answers differ
@@ -230,6 +231,147 @@ std::string do_validate() {
     return "MODE ro=[ " + ro + " ] rw=[ " + rw + " ]";
 }
 
+// ---- `entities ro|rw`: every free function valid::validate(entity) on every entity of the file ---------------
+// Answer: walk=<0|1> acc=<0|1> ids=<0|1> n=<calls> then, sorted, one token per message
+//   <ordinal>:<E|W>:<s:msg>           valid::validate(Block/DataArray/Tag/MultiTag/Feature/Source/Section/Property)
+//   <array>.<index>:<E|W>:<s:msg>     valid::validate(RangeDimension/SampledDimension/SetDimension) as in the walk
+//   g<array>.<index>:<E|W>:<s:msg>    valid::validate(const Dimension&) on every descriptor (data-frame ones included)
+//   file:<E|W>:<s:msg>                valid::validate(const File&)
+// walk: the concatenation (Result::concat) of the per-entity results in the order of File::validate's loops is
+//       File::validate()'s result, message by message;  ids: every message carries the id of the entity it was
+//       asked about ("unknown" for descriptors);  acc: ok / hasErrors / hasWarnings / concat / addError /
+//       addWarning / the none_t constructors / operator<< agree with getErrors / getWarnings on every Result seen.
+
+struct Probe {
+    bool acc = true, ids = true;
+    size_t calls = 0;
+    std::vector<std::string> toks;
+
+    static bool same(const std::vector<nix::valid::Message> &a, const std::vector<nix::valid::Message> &b) {
+        if (a.size() != b.size()) return false;
+        for (size_t i = 0; i < a.size(); i++) if (a[i].id != b[i].id || a[i].msg != b[i].msg) return false;
+        return true;
+    }
+
+    void accessors(const nix::valid::Result &r) {
+        std::vector<nix::valid::Message> e = r.getErrors(), w = r.getWarnings();
+        if (r.hasErrors() != !e.empty() || r.hasWarnings() != !w.empty() || r.ok() != (e.empty() && w.empty())) acc = false;
+        // rebuild the result through the other constructors / mutators
+        nix::valid::Result viaVec(e, w), viaAdd, onlyE(e, nix::none), onlyW(nix::none, w);
+        for (auto &m : e) viaAdd.addError(m);
+        for (auto &m : w) viaAdd.addWarning(m);
+        if (!same(viaVec.getErrors(), e) || !same(viaVec.getWarnings(), w) || !same(viaAdd.getErrors(), e) ||
+            !same(viaAdd.getWarnings(), w) || !same(onlyE.getErrors(), e) || !onlyE.getWarnings().empty() ||
+            !same(onlyW.getWarnings(), w) || !onlyW.getErrors().empty()) acc = false;
+        if (!e.empty()) {
+            nix::valid::Result one(e[0], nix::none);
+            if (one.getErrors().size() != 1 || one.getErrors()[0].msg != e[0].msg || one.hasWarnings()) acc = false;
+        }
+        if (!w.empty()) {
+            nix::valid::Result one(nix::none, w[0]);
+            if (one.getWarnings().size() != 1 || one.getWarnings()[0].id != w[0].id || one.hasErrors()) acc = false;
+        }
+        // concat appends to the receiver and returns a copy of it
+        nix::valid::Result left = onlyW;
+        nix::valid::Result ret = left.concat(onlyE);
+        if (!same(left.getErrors(), e) || !same(left.getWarnings(), w) || !same(ret.getErrors(), e) || !same(ret.getWarnings(), w)) acc = false;
+        std::ostringstream o, want;
+        o << r;
+        for (auto &m : w) { if (!m.id.empty()) want << "ID " << m.id << " "; want << "WARNING: " << m.msg << std::endl; }
+        for (auto &m : e) { if (!m.id.empty()) want << "ID " << m.id << " "; want << "ERROR: " << m.msg << std::endl; }
+        if (o.str() != want.str()) acc = false;
+    }
+
+    void take(const std::string &key, const std::string &id, const nix::valid::Result &r) {
+        calls++;
+        accessors(r);
+        for (auto &m : r.getErrors()) { if (m.id != id) ids = false; toks.push_back(key + ":E:" + enc_str(m.msg)); }
+        for (auto &m : r.getWarnings()) { if (m.id != id) ids = false; toks.push_back(key + ":W:" + enc_str(m.msg)); }
+    }
+};
+
+nix::Feature feat_of(const Ent &e) {
+    const Ent &p = ents[(size_t)e.parent];
+    return p.kind == 't' ? tg(p).getFeature(e.id) : mtg(p).getFeature(e.id);
+}
+
+nix::Property prop_of(const Ent &e) {
+    std::vector<std::string> ch(e.chain.begin(), e.chain.end() - 1);
+    Ent tmp{'S', "", "", ch, -1};
+    return sec(tmp).getProperty(e.chain.back());
+}
+
+std::string do_entities(const std::string &mode) {
+    close_raw();
+    if (nix_open) { nf.close(); nix_open = false; }
+    nf = nix::File::open(fname, mode == "ro" ? nix::FileMode::ReadOnly : nix::FileMode::ReadWrite);
+    nix_open = true;
+    Probe pr;
+    for (size_t i = 0; i < ents.size(); i++) {
+        const Ent &e = ents[i];
+        std::string key = std::to_string(i);
+        switch (e.kind) {
+        case 'b': pr.take(key, e.id, nix::valid::validate(blk(e))); break;
+        case 'a': {
+            nix::DataArray a = arr(e);
+            pr.take(key, e.id, nix::valid::validate(a));
+            for (auto &d : a.dimensions()) {
+                std::string dk = key + "." + std::to_string(d.index());
+                pr.take("g" + dk, "unknown", nix::valid::validate(d));
+                if (d.dimensionType() == nix::DimensionType::Range) pr.take(dk, "unknown", nix::valid::validate(d.asRangeDimension()));
+                if (d.dimensionType() == nix::DimensionType::Set) pr.take(dk, "unknown", nix::valid::validate(d.asSetDimension()));
+                if (d.dimensionType() == nix::DimensionType::Sample) pr.take(dk, "unknown", nix::valid::validate(d.asSampledDimension()));
+            }
+            break;
+        }
+        case 't': pr.take(key, e.id, nix::valid::validate(tg(e))); break;
+        case 'm': pr.take(key, e.id, nix::valid::validate(mtg(e))); break;
+        case 'F': pr.take(key, e.id, nix::valid::validate(feat_of(e))); break;
+        case 's': pr.take(key, e.id, nix::valid::validate(src(e))); break;
+        case 'S': pr.take(key, e.id, nix::valid::validate(sec(e))); break;
+        case 'p': pr.take(key, e.id, nix::valid::validate(prop_of(e))); break;
+        default: break;                     // data frames: the library has no validate for them
+        }
+    }
+    pr.take("file", nf.id(), nix::valid::validate(nf));
+    // the walk of File::validate, remade from the free functions and Result::concat
+    nix::valid::Result cat;
+    for (auto &block : nf.blocks()) {
+        cat.concat(nix::valid::validate(block));
+        for (auto &a : block.dataArrays()) {
+            cat.concat(nix::valid::validate(a));
+            for (auto &d : a.dimensions()) {
+                if (d.dimensionType() == nix::DimensionType::Range) cat.concat(nix::valid::validate(d.asRangeDimension()));
+                if (d.dimensionType() == nix::DimensionType::Set) cat.concat(nix::valid::validate(d.asSetDimension()));
+                if (d.dimensionType() == nix::DimensionType::Sample) cat.concat(nix::valid::validate(d.asSampledDimension()));
+            }
+        }
+        for (auto &m : block.multiTags()) {
+            cat.concat(nix::valid::validate(m));
+            for (auto &f : m.features()) cat.concat(nix::valid::validate(f));
+        }
+        for (auto &g : block.tags()) {
+            cat.concat(nix::valid::validate(g));
+            for (auto &f : g.features()) cat.concat(nix::valid::validate(f));
+        }
+        for (auto &s : block.findSources()) cat.concat(nix::valid::validate(s));
+    }
+    for (auto &s : nf.findSections()) {
+        cat.concat(nix::valid::validate(s));
+        for (auto &p : s.properties()) cat.concat(nix::valid::validate(p));
+    }
+    nix::valid::Result whole = nf.validate();
+    pr.accessors(whole);
+    bool walk = Probe::same(cat.getErrors(), whole.getErrors()) && Probe::same(cat.getWarnings(), whole.getWarnings());
+    nf.close();
+    nix_open = false;
+    std::sort(pr.toks.begin(), pr.toks.end());
+    std::string out = std::string("walk=") + (walk ? "1" : "0") + " acc=" + (pr.acc ? "1" : "0") + " ids=" + (pr.ids ? "1" : "0") +
+                      " n=" + std::to_string(pr.calls);
+    for (auto &x : pr.toks) out += " " + x;
+    return out;
+}
+
 std::string handle(const std::vector<std::string> &t) {
     const std::string &c = t[0];
     if (c == "new") {
@@ -242,6 +384,7 @@ std::string handle(const std::vector<std::string> &t) {
         return "-";
     }
     if (c == "validate") return do_validate();
+    if (c == "entities") return do_entities(t.at(1));
     if (c == "h5") {
         need_raw();
         const std::string &op = t.at(1);
